@@ -1,15 +1,17 @@
 #!/bin/bash
-# selftest/run_seeded.sh <seeded id> [property ...]: apply seeded/<id>/patch.diff to /repo, run the quick
-# checks of the given properties (default: the property the change was written for), undo the change.
+# selftest/run_seeded.sh <seeded id> [property ...]
+# Apply seeded/<id>/patch.diff (or patch.rebased.diff) to a SCRATCH worktree of /repo's HEAD (never to /repo itself),
+# run the quick checks of the given properties (default: the property the change was written for) against that copy
+# through VERIF_REPO, and remove the worktree.
 id=$1; shift; props=${@:-${id%%-*}}
-cd /repo || exit 9
-if ! git apply --check /verif/seeded/$id/patch.diff 2>/dev/null; then
-  if [ -f /verif/seeded/$id/patch.rebased.diff ] && git apply --check /verif/seeded/$id/patch.rebased.diff; then
-    git apply /verif/seeded/$id/patch.rebased.diff
-  else echo "$id: patch does not apply to the current tree"; exit 8; fi
-else git apply /verif/seeded/$id/patch.diff; fi
+wt=$(mktemp -d /tmp/verif_seedwt_XXXXXX); rmdir $wt
+git -C /repo worktree add -q --detach $wt HEAD || exit 9
+cleanup() { git -C /repo worktree remove --force $wt 2>/dev/null; git -C /repo worktree prune; }
+trap cleanup EXIT
+if git -C $wt apply --check /verif/seeded/$id/patch.diff 2>/dev/null; then git -C $wt apply /verif/seeded/$id/patch.diff
+elif [ -f /verif/seeded/$id/patch.rebased.diff ] && git -C $wt apply --check /verif/seeded/$id/patch.rebased.diff 2>/dev/null; then git -C $wt apply /verif/seeded/$id/patch.rebased.diff
+else echo "$id: patch does not apply to the current tree"; exit 8; fi
 for p in $props; do
-  out=$(cd /verif && ./check $p --tier quick 2>&1); rc=$?
+  out=$(cd /verif && VERIF_REPO=$wt ./check $p --tier quick 2>&1); rc=$?
   echo "seeded=$id check=$p rc=$rc :: $(echo "$out" | grep -E '^VIOLATION|MACHINERY' | head -2 | cut -c1-230)"
 done
-git -C /repo checkout -- .
